@@ -18,7 +18,9 @@ Definition val := option Z.                     (* SQL integer or NULL *)
 
 Record prow := { p_id : Z; p_x : val }.
 Record crow := { c_id : Z; c_pid : val; c_y : val; c_kind : Z }.
-Record db := { ps : list prow; cs : list crow }.
+(* [ns]: the rows of the self-referential table node(id, parent_id -> node.id NULL-able, data), stored in the
+   shape of a child row: c_id = id, c_pid = parent_id, c_y = data (c_kind unused) *)
+Record db := { ps : list prow; cs : list crow; ns : list crow }.
 
 (* ================= 1. Core ================= *)
 Inductive cmpop := OEq | ONe | OLt | OLe | OGt | OGe.
@@ -30,7 +32,7 @@ Definition cmpZ (o : cmpop) (a b : Z) : bool :=
 Definition cmp3 (o : cmpop) (a b : val) : tv :=
   match a, b with Some x, Some y => tv_of_bool (cmpZ o x y) | _, _ => TU end.
 
-Inductive tab := TabP | TabC.
+Inductive tab := TabP | TabC | TabN.
 Inductive col := ColId | ColX | ColPid | ColY | ColKind.
 (* a row of either table; columns a table does not have are NULL; the all-NULL row is the outer-join filler *)
 Record grow := { g_id : val; g_x : val; g_pid : val; g_y : val; g_kind : val }.
@@ -42,7 +44,7 @@ Definition grow_c (c : crow) : grow :=
 Definition gcol (r : grow) (c : col) : val :=
   match c with ColId => g_id r | ColX => g_x r | ColPid => g_pid r | ColY => g_y r | ColKind => g_kind r end.
 Definition rows_of (d : db) (t : tab) : list grow :=
-  match t with TabP => map grow_p (ps d) | TabC => map grow_c (cs d) end.
+  match t with TabP => map grow_p (ps d) | TabC => map grow_c (cs d) | TabN => map grow_c (ns d) end.
 
 Definition env := list (nat * grow).            (* alias -> row, innermost first *)
 Fixpoint lookup (e : env) (a : nat) : grow :=
@@ -177,6 +179,11 @@ Inductive ccrit :=
 | CS (s : sx)                (* criterion on C.y *)
 | CHas (s : sx)              (* C.parent.has(crit on P.x) *)
 | CAnd (a b : ccrit) | COr (a b : ccrit) | CNot (a : ccrit).
+(* criteria on the self-referential entity Node: Node.children.any(..) / Node.parent.has(..); the keyword forms
+   any(data=k) / has(data=k) are the same criteria as the expression forms with data == k *)
+Inductive ncrit :=
+| NS (s : sx) | NAny (s : sx) | NHas (s : sx)
+| NAnd (a b : ncrit) | NOr (a b : ncrit) | NNot (a : ncrit).
 Inductive target := TgC | TgAlias | TgSub | TgSubOn.
 (* join(P.children) | join(P.children.of_type(aliased(C))) | join(P.children.of_type(Sub))
    | join(Sub, P.id == Sub.pid): hand-written ON clause, _ORMJoin adds the single-table criterion of the target *)
@@ -187,7 +194,11 @@ Inductive oq :=
 | QJoinPC (outer : bool) (t : target) (sp sc : sx) (m : colmode)   (* select(..).join(P.children -> T).where(sp, sc) *)
 | QJoinCP (outer : bool) (sc sp : sx)                     (* select(C, P).join(C.parent).where(sc, sp) *)
 | QGroup (sc : sx)                                        (* select(P, count(C.id)).outerjoin(P.children).where(sc).group_by(P.id) *)
-| QUnion (a b : pcrit).                                   (* select(aliased(P, union(select(P).where(a), select(P).where(b)))) *)
+| QUnion (a b : pcrit)                                    (* select(aliased(P, union(select(P).where(a), select(P).where(b)))) *)
+| QN (c : ncrit)                                          (* select(Node).where(c) *)
+| QSibs (vals : bool) (sc : sx).
+(* select(Sub, SubA).where(Sub.pid == SubA.pid, sc on SubA.y): the single-table subclass twice as separate FROM
+   entities (class + aliased(), or two aliases); vals: select(Sub.id, SubA.id) instead of the entities *)
 
 Fixpoint tr_sx (a : nat) (c : col) (s : sx) : bx :=
   match s with
@@ -230,6 +241,24 @@ Fixpoint tr_ccrit (ca : nat) (c : ccrit) : bx :=
   | CNot x => BNot (tr_ccrit ca x)
   end.
 
+(* the EXISTS target of a self-referential relationship is an anonymous alias of the table (alias 2) *)
+Fixpoint tr_ncrit (na : nat) (c : ncrit) : bx :=
+  match c with
+  | NS s => tr_sx na ColY s
+  | NAny s => BExists TabN sub_alias (BAnd (BCmp OEq (ECol na ColId) (ECol sub_alias ColPid)) (tr_sx sub_alias ColY s))
+  | NHas s => BExists TabN sub_alias (BAnd (BCmp OEq (ECol sub_alias ColId) (ECol na ColPid)) (tr_sx sub_alias ColY s))
+  | NAnd x y => BAnd (tr_ncrit na x) (tr_ncrit na y)
+  | NOr x y => BOr (tr_ncrit na x) (tr_ncrit na y)
+  | NNot x => BNot (tr_ncrit na x)
+  end.
+
+Definition sel_sibs (sc : sx) : sel :=
+  {| s_tab := TabC; s_alias := 0;
+     s_joins := [ {| f_outer := false; f_tab := TabC; f_alias := 1; f_on := BTrue |} ];     (* FROM c, c AS c_1 *)
+     s_where := BAnd (BAnd (BCmp OEq (ECol 0 ColPid) (ECol 1 ColPid)) (tr_sx 1 ColY sc))
+                     (BAnd (sub_crit 0) (sub_crit 1));       (* one discriminator criterion per entity *)
+     s_cols := [ECol 0 ColId; ECol 1 ColId]; s_order := [ECol 0 ColId; ECol 1 ColId] |}.
+
 Definition on_pc (t : target) : bx :=
   match t with TgSub | TgSubOn => BAnd (pj 0 1) (sub_crit 1) | _ => pj 0 1 end.
 Definition cols_pc (m : colmode) : list ex :=
@@ -261,6 +290,9 @@ Definition orm_to_core (d : db) (q : oq) : cq :=
   | QGroup sc => CGroup (sel_pc true (pj 0 1) (tr_sx 1 ColY sc) []) (ECol 0 ColId) (ECol 1 ColId)
   | QUnion a b => CUnion (sel_p (tr_pcrit d 0 a) [ECol 0 ColId; ECol 0 ColX])
                          (sel_p (tr_pcrit d 0 b) [ECol 0 ColId; ECol 0 ColX])
+  | QN c => CSel {| s_tab := TabN; s_alias := 0; s_joins := []; s_where := tr_ncrit 0 c;
+                    s_cols := [ECol 0 ColId]; s_order := [ECol 0 ColId] |}
+  | QSibs _ sc => CSel (sel_sibs sc)
   end.
 
 (* which result columns are entities (of which identity class), which are plain values *)
@@ -274,12 +306,16 @@ Definition col_kinds (q : oq) : list ckind :=
   | QJoinCP _ _ _ => [KEnt TabC; KEnt TabP]
   | QGroup _ => [KEnt TabP; KVal]
   | QUnion _ _ => [KEnt TabP]
+  | QN _ => [KEnt TabN]
+  | QSibs false _ => [KEnt TabC; KEnt TabC]
+  | QSibs true _ => [KVal; KVal]
   end.
 
 (* loading._instance: the identity map of the Session; a row whose primary key is NULL gives None *)
 Inductive item := IEnt (oid : nat) (pk : Z) | INone | IVal (v : val).
 Definition idmap := list ((tab * Z) * nat).
-Definition tab_eqb (a b : tab) : bool := match a, b with TabP, TabP | TabC, TabC => true | _, _ => false end.
+Definition tab_eqb (a b : tab) : bool :=
+  match a, b with TabP, TabP | TabC, TabC | TabN, TabN => true | _, _ => false end.
 Definition im_find (m : idmap) (t : tab) (pk : Z) : option nat :=
   match find (fun e => tab_eqb (fst (fst e)) t && Z.eqb (snd (fst e)) pk) m with
   | Some e => Some (snd e) | None => None end.
@@ -333,6 +369,18 @@ Definition orm_count (d : db) (q : oq) : nat := length (core_exec d (orm_to_core
 Definition orm_exists (d : db) (q : oq) : bool :=
   match core_exec d (orm_to_core d q) with [] => false | _ => true end.
 
+(* ---- LIMIT / OFFSET on the statement (Query.limit().offset(), Select.limit().offset()) ---- *)
+Definition slice {A : Type} (off : nat) (lim : option nat) (l : list A) : list A :=
+  match lim with Some n => firstn n (skipn off l) | None => skipn off l end.
+Definition orm_exec_sl (d : db) (q : oq) (off : nat) (lim : option nat) (legacy : bool) : list (list item) :=
+  let rows := assemble [] (col_kinds q) (slice off lim (core_exec d (orm_to_core d q))) in
+  if legacy then unique_items rows [] else rows.
+(* Query.count(): SELECT count( * ) FROM (<statement with its LIMIT / OFFSET>) AS anon_1 *)
+Definition orm_count_sl (d : db) (q : oq) (off : nat) (lim : option nat) : nat :=
+  length (slice off lim (core_exec d (orm_to_core d q))).
+Definition orm_exists_sl (d : db) (q : oq) (off : nat) (lim : option nat) : bool :=
+  match slice off lim (core_exec d (orm_to_core d q)) with [] => false | _ => true end.
+
 Definition item_val (i : item) : val := match i with IEnt _ pk => Some pk | INone => None | IVal v => v end.
 
 (* ================= 3. relational meaning on the object graph ================= *)
@@ -370,6 +418,22 @@ Fixpoint ceval (d : db) (c : crow) (k : ccrit) : tv :=
   | COr a b => or3 (ceval d c a) (ceval d c b)
   | CNot a => not3 (ceval d c a)
   end.
+
+(* m is in n.children / n is m.parent *)
+Definition nchild (m n : crow) : bool :=
+  match c_pid m with Some v => Z.eqb v (c_id n) | None => false end.
+Fixpoint neval (d : db) (n : crow) (c : ncrit) : tv :=
+  match c with
+  | NS s => sxeval s (c_y n)
+  | NAny s => tv_of_bool (existsb (fun m => nchild m n && is_true (sxeval s (c_y m))) (ns d))
+  | NHas s => tv_of_bool (existsb (fun m => nchild n m && is_true (sxeval s (c_y m))) (ns d))
+  | NAnd a b => and3 (neval d n a) (neval d n b)
+  | NOr a b => or3 (neval d n a) (neval d n b)
+  | NNot a => not3 (neval d n a)
+  end.
+Definition same_parent (a b : crow) : bool :=
+  match c_pid a, c_pid b with Some x, Some y => Z.eqb x y | _, _ => false end.
+Definition pairs_cc (d : db) : list (crow * crow) := flat_map (fun a => map (fun b => (a, b)) (cs d)) (cs d).
 
 Definition tgt_ok (t : target) (c : crow) : bool := match t with TgSub | TgSubOn => is_sub c | _ => true end.
 Definition oc_id (c : option crow) : val := match c with Some c => Some (c_id c) | None => None end.
@@ -413,6 +477,11 @@ Definition meaning_rows (d : db) (q : oq) : list krow :=
     map (fun r => (firstn 1 r, firstn 1 r))
         (dedup_rows (map (fun p => [Some (p_id p); p_x p]) (filter (fun p => is_true (peval d p a)) (ps d)) ++
                      map (fun p => [Some (p_id p); p_x p]) (filter (fun p => is_true (peval d p b)) (ps d))) [])
+  | QN c => map (fun n => ([Some (c_id n)], [Some (c_id n)])) (filter (fun n => is_true (neval d n c)) (ns d))
+  | QSibs _ sc =>
+    map (fun ab => ([Some (c_id (fst ab)); Some (c_id (snd ab))], [Some (c_id (fst ab)); Some (c_id (snd ab))]))
+        (filter (fun ab => (same_parent (fst ab) (snd ab) && is_true (sxeval sc (c_y (snd ab)))) &&
+                           (is_sub (fst ab) && is_sub (snd ab))) (pairs_cc d))
   end.
 Definition meaning (d : db) (q : oq) : list (list val) := order_rows (meaning_rows d q).
 
